@@ -100,6 +100,15 @@ pub fn render(v: &Value) -> String {
       utils.insert("u".into(), json!({"all": [{"kind": "call_expression"}], "any": [{"matches": "w"}, {"kind": "call_expression"}]}));
       utils.insert("w".into(), json!({"any": [{"matches": "u"}, {"kind": "number"}]}));
     }
+    // a long chain of utilities, each reaching the next one through two references: loading and scanning stay linear in
+    // the length of the chain
+    "deep_chain_two_refs" => {
+      rule.insert("matches".into(), json!("c0"));
+      for k in 0..36 {
+        utils.insert(format!("c{k}"), json!({"any": [{"matches": format!("c{}", k + 1)}, {"all": [{"kind": "call_expression"}, {"matches": format!("c{}", k + 1)}]}]}));
+      }
+      utils.insert("c36".into(), json!({"kind": "call_expression"}));
+    }
     "cycle_via_ofrule" => {
       rule.insert("matches".into(), json!("u"));
       utils.insert("u".into(), json!({"kind": "call_expression", "nthChild": {"position": 1, "ofRule": {"matches": "w"}}}));
